@@ -3,8 +3,11 @@ package fmtp
 import (
 	"bytes"
 	"context"
+	crand "crypto/rand"
 	"encoding/base64"
+	"errors"
 	"fmt"
+	"io"
 	"net/url"
 	"strings"
 	"sync"
@@ -251,5 +254,87 @@ func c18Histories(run *rt.Run, r *rt.Rand) {
 		run.Add("concurrent_events", ng*per)
 		run.Add("concurrent_rotations", rotations)
 		run.Eval(fmt.Sprintf("concurrent|%d|%d|signers-seen=%d", ng, per/100, len(bySigner)))
+	}
+}
+
+// flakyEntropy stands in for crypto/rand.Reader: it fails on the calls its pattern names (the entropy source of a
+// sandboxed or exhausted process does fail).
+type flakyEntropy struct {
+	real    io.Reader
+	n       int
+	pattern func(n int) bool
+}
+
+func (f *flakyEntropy) Read(p []byte) (int, error) {
+	f.n++
+	if f.pattern(f.n) {
+		return 0, errors.New("injected entropy failure")
+	}
+	return f.real.Read(p)
+}
+
+// c18Entropy: "the id is the payload's ID() or otherwise fresh and unique", also for events that share their type
+// and creation time and when the entropy source fails some or all of the time: such an event is either refused
+// with an error (nothing stored, nothing forwarded) or gets an id no other event has. Runs last and alone in its
+// process (the entropy source is process-wide); the real source is put back afterwards.
+func c18Entropy(run *rt.Run, r *rt.Rand) {
+	ctx := context.Background()
+	realReader := crand.Reader
+	defer func() { crand.Reader = realReader }()
+	n := run.N(40, 1500)
+	for i := 0; i < n && !run.Stop(); i++ {
+		cr := r.Fork()
+		kind := rt.Pick(cr, []string{"always", "every-2nd", "first-3", "after-2", "never"})
+		fe := &flakyEntropy{real: realReader}
+		switch kind {
+		case "always":
+			fe.pattern = func(int) bool { return true }
+		case "every-2nd":
+			fe.pattern = func(n int) bool { return n%2 == 0 }
+		case "first-3":
+			fe.pattern = func(n int) bool { return n <= 3 }
+		case "after-2":
+			fe.pattern = func(n int) bool { return n > 2 }
+		default:
+			fe.pattern = func(int) bool { return false }
+		}
+		src, _ := url.Parse("https://verif.example/entropy")
+		f := &cloudevents.FormatterFilter{Source: src}
+		key := string(cloudevents.FormatJSON)
+		created := time.Unix(int64(1_650_000_000+cr.Intn(1000)), int64(cr.Intn(1000))*1_000_000).UTC()
+		nev := cr.Range(2, 6)
+		run.Progress("C18 entropy %d failing=%s events=%d", i, kind, nev)
+		seen := map[string]int{}
+		refused := 0
+		crand.Reader = fe
+		for k := 0; k < nev; k++ {
+			ev := &eventlogger.Event{Type: "same-type", CreatedAt: created, Formatted: map[string][]byte{}, Payload: &cePlain{A: "e", N: k}}
+			out, err := f.Process(ctx, ev)
+			stored, has := ev.Format(key)
+			wit := map[string]any{"entropy_source_fails": kind, "events_with_the_same_type_and_creation_time": nev, "event": k, "err": fmt.Sprint(err), "stored": string(stored)}
+			if err != nil {
+				refused++
+				if out != nil || has {
+					crand.Reader = realReader
+					run.Violation("history-pattern:entropy-error-but-forwarded", "Process returned an error but forwarded the event or stored a document", wit)
+				}
+				continue
+			}
+			id, _, _, problem := ceSignature(stored, nil)
+			if out != ev || !has || problem != "" || id == "" {
+				crand.Reader = realReader
+				run.Violation("history-pattern:id", fmt.Sprintf("no usable document / id for an accepted event: %s id=%q", problem, id), wit)
+				continue
+			}
+			if prev, dup := seen[id]; dup {
+				crand.Reader = realReader
+				run.Violation("history-pattern:id-not-unique", fmt.Sprintf("generated id %q was given to events %d and %d (same type, same creation time) while the entropy source was failing (%s)", id, prev, k, kind), wit)
+			}
+			seen[id] = k
+		}
+		crand.Reader = realReader
+		run.Add("entropy_events_refused", refused)
+		run.Add("entropy_events_accepted", nev-refused)
+		run.Eval(fmt.Sprintf("entropy|%s|%d|%d", kind, nev, refused))
 	}
 }
